@@ -65,20 +65,44 @@ def _filled(shape, v):
     return out.view(SymArr)
 
 
+def _proto_int(a, dtype):
+    return dtype is None and isinstance(a, SymArr) and a.kind == 'i'
+
+
 @handles(np.zeros_like)
 def _zeros_like(a, dtype=None, order='K', subok=True, shape=None, **kw):
+    if _proto_int(a, dtype):
+        r = _filled(np.shape(a) if shape is None else shape, 0)
+        r.kind = 'i'
+        return r
     return _filled(np.shape(a) if shape is None else shape, _zero_for(dtype))
 
 
 @handles(np.ones_like)
 def _ones_like(a, dtype=None, order='K', subok=True, shape=None, **kw):
+    if _proto_int(a, dtype):
+        r = _filled(np.shape(a) if shape is None else shape, 1)
+        r.kind = 'i'
+        return r
     z = _zero_for(dtype)
     return _filled(np.shape(a) if shape is None else shape, z + 1 if not isinstance(z, complex) else 1 + 0j)
 
 
 @handles(np.empty_like)
 def _empty_like(a, dtype=None, order='K', subok=True, shape=None, **kw):
+    if _proto_int(a, dtype):
+        r = _filled(np.shape(a) if shape is None else shape, 0)
+        r.kind = 'i'
+        return r
     return _filled(np.shape(a) if shape is None else shape, _zero_for(dtype))
+
+
+@handles(np.put)
+def _put(a, ind, v, mode='raise'):
+    if isinstance(a, SymArr) and a.kind == 'i':
+        from .symarr import _trunc_store
+        v = _trunc_store(_plain(v) if isinstance(v, (np.ndarray, list, tuple)) else v)
+    return np.put._implementation(a, ind, v, mode=mode)
 
 
 @handles(np.full_like)
